@@ -384,6 +384,15 @@ const H3: u32 = 0x10325476;
 const H4: u32 = 0xC3D2E1F0;
 const H: [u32; STATE_LEN] = [H0, H1, H2, H3, H4];
 
+#[cfg(feature = "verif-hooks")]
+impl Context {
+    /// verification hook: preset the count of bytes processed so far (the length field of the padding
+    /// is derived from it)
+    pub fn verif_set_processed_bytes(&mut self, n: u128) {
+        self.processed_bytes = n as u64;
+    }
+}
+
 impl Context {
     /// Construct a new default SHA1 context
     pub const fn new() -> Self {
